@@ -86,6 +86,9 @@ type Gen struct {
 	lastMsgs  []sdk.Msg
 	extraVals int
 	Samples   []string
+	// set by fragment steps
+	ForceGap    time.Duration // gap of the block being planned
+	FastForward int           // empty blocks (1 s apart) the runner inserts after this block
 }
 
 func NewGen(c *Chain, seed int64, p Profile) *Gen {
@@ -289,6 +292,10 @@ func (g *Gen) Plan() BlockPlan {
 				g.Samples = append(g.Samples, fmt.Sprintf("h=%d %s", h, describe(g.lastMsgs)))
 			}
 		}
+	}
+	if g.ForceGap != 0 {
+		p.Gap = g.ForceGap
+		g.ForceGap = 0
 	}
 	out := txs[:0]
 	for _, t := range txs {
